@@ -13,6 +13,7 @@ import (
 	"time"
 
 	"github.com/tsawler/tabula"
+	"github.com/tsawler/tabula/layout"
 	"github.com/tsawler/tabula/text"
 	"verif/internal/harness"
 )
@@ -33,7 +34,7 @@ func run(e *harness.Env) {
 	e.Rule = "grid grammar: full product of K columns (1..2 quick plus K=3 for R=2, 1..4 thorough) x R rows (1,2,3,8 quick; 1,2,3,4,8 thorough) x W words per line (1..3) x API, and on top of each grid every " +
 		"combination of at most 2 (quick) / 3 (thorough) deviations among: justified, heading (first/last column, or a 30pt in-column heading), short last line, single-word line, overhanging word (near/far), " +
 		"spanning title (top/mid), list markers (bullet/numbered/nested), RTL run, character-level fragmentation, exact duplicate overlay (all/line), inverted Y, coordinates x0.1, " +
-		"single narrow glyph line (I/1), repeated text at a different position (word / doubled letter), hyphenated line end, columns not baseline-aligned (stagger),  descending map order (APIs with paragraph detection), one absent cell per deviation. Stack sub-space: pages of 4 (quick) / 5 (thorough) lines, every line left / middle / right / full width, boxes 12 on 14.4, 15 on 10, 12 on 8 (full product): every merge topology of up to 4/5 blocks. Glyph sub-space: character-level pages with a word holding a doubled narrow / wide glyph (ll ii jj .. oo mm ee tt …) at every position of a line and two sizes, and word-level pages with one word painted a second time at offsets 0, 0.3, 0.7, 2, 4 pt (x) / 0.3 pt (y), directly after the original or as a second layer (full product). Reuse sub-space: for each of 12 detector/analyzer instance types, one instance analyses every ordered sequence A,B / A,B,A / A,A / A|B (thorough also A,B,C and A,B,A,B) over 17 reduced grammar pages with disjoint tokens; all results are rendered only afterwards and must equal the rendering by a fresh instance. distinct = distinct (API, grid, deviation vector); non-trivial = at least one deviation"
+		"single narrow glyph line (I/1), repeated text at a different position (word / doubled letter), hyphenated line end, columns not baseline-aligned (stagger),  descending map order (APIs with paragraph detection), one absent cell per deviation. Stack sub-space: pages of 4 (quick) / 5 (thorough) lines, every line left / middle / right / full width, boxes 12 on 14.4, 15 on 10, 12 on 8 (full product): every merge topology of up to 4/5 blocks. Glyph sub-space: character-level pages with a word holding a doubled narrow / wide glyph (ll ii jj .. oo mm ee tt …) at every position of a line and two sizes, and word-level pages with one word painted a second time at offsets 0, 0.3, 0.7, 2, 4 pt (x) / 0.3 pt (y), directly after the original or as a second layer (full product). Config sub-space: the full product of every configuration field of the layout detectors that selects a code path (ReadingOrderConfig Direction / PreferColumnOrder / InvertedY nil,false,true; BlockConfig MergeOverlappingBlocks; AnalyzerConfig DetectHeadings / DetectLists / UseReadingOrder; HeadingConfig BoldIndicatesHeading / AllCapsIndicatesHeading) over pages of 1..5, 8, 9 lines per column, 1-2 columns, with/without a title line, Y-up and Y-down coordinates. Reuse sub-space: for each of 12 detector/analyzer instance types, one instance analyses every ordered sequence A,B / A,B,A / A,A / A|B (thorough also A,B,C and A,B,A,B) over 17 reduced grammar pages with disjoint tokens; all results are rendered only afterwards and must equal the rendering by a fresh instance. distinct = distinct (API, grid, deviation vector); non-trivial = at least one deviation"
 	e.Assumptions = []string{
 		"Part 2 trusts tabula's PDF parsing and text positioning (C01/C08) to deliver the fragments: the reference is the list of fragments written into the PDF, their widths/heights are taken from tabula.Open(f).Fragments()",
 		"text.DetectDirection is used to label the direction of Part-1 input fragments exactly as text extraction would",
@@ -52,6 +53,9 @@ func run(e *harness.Env) {
 	}
 	if only == "" || only == "glyphs" {
 		glyphSpace(e)
+	}
+	if only == "" || only == "config" {
+		configSpace(e)
 	}
 	for _, a := range apis {
 		if only != "" && a.name != only {
@@ -377,6 +381,189 @@ func glyphSpace(e *harness.Env) {
 						continue
 					}
 					e.Pass(desc, true, "glyphs:twice")
+				}
+			}
+		}
+	}
+}
+
+// ---- config sub-space: every configuration field that selects a code path ---------------------------------
+//
+// The other spaces drive the detectors with their default configuration. The exported configuration structs of package
+// layout hold, besides numeric thresholds, these switches (enumerated from the struct definitions):
+//
+//	ReadingOrderConfig: Direction (LeftToRight / RightToLeft / TopToBottom), PreferColumnOrder, InvertedY (nil / &false / &true)
+//	BlockConfig:        MergeOverlappingBlocks
+//	AnalyzerConfig:     DetectHeadings, DetectLists, UseReadingOrder (+ its ReadingOrderConfig, BlockConfig, HeadingConfig)
+//	HeadingConfig:      BoldIndicatesHeading, AllCapsIndicatesHeading
+//
+// (ColumnConfig, LineConfig, ParagraphConfig and ListConfig only hold thresholds and patterns.) Here their full product is
+// run over small pages: 1..5, 8 and 9 lines per column (odd and even), one and two columns, with and without a full-width
+// title line, coordinates Y-up and Y-down. Same oracle: nothing lost, invented or duplicated in any view.
+func configSpace(e *harness.Env) {
+	os.Setenv("C09_MAPORDER", "asc")
+	type pg struct {
+		K, n          int
+		title, coords string
+	}
+	var pages []pg
+	for _, K := range []int{1, 2} {
+		for _, n := range []int{1, 2, 3, 4, 5, 8, 9} {
+			for _, t := range []string{"none", "top"} {
+				for _, c := range []string{"up", "down"} {
+					pages = append(pages, pg{K, n, t, c})
+				}
+			}
+		}
+	}
+	build := func(q pg) *pageSpec {
+		p := &pageSpec{K: q.K, R: q.n, W: 2, justified: true, absent: map[[2]int]bool{}, scaleF: 1, heading: "none", overhang: "none", title: q.title, list: "none", dup: "none", narrow: "none", repeat: "none", inverty: q.coords == "down"}
+		p.build()
+		return p
+	}
+	tri := []struct {
+		name string
+		v    *bool
+	}{{"nil", nil}, {"false", new(bool)}, {"true", func() *bool { b := true; return &b }()}}
+	dirs := []struct {
+		name string
+		d    layout.ReadingDirection
+	}{{"ltr", layout.LeftToRight}, {"rtl", layout.RightToLeft}, {"ttb", layout.TopToBottom}}
+	bools := []bool{true, false}
+
+	run := func(apiName, family, aspect, cfg string, q pg, f func(fr []text.TextFragment) view) {
+		desc := harness.D("part", 1, "api", apiName, "space", "config", "cfg", cfg, "K", q.K, "lines", q.n, "title", q.title, "coords", q.coords)
+		if !e.Own(desc) {
+			return
+		}
+		p := build(q)
+		a := api{name: apiName, family: family, aspect: aspect, part: 1, run1: f}
+		sig, detail, files := runCase(e, desc, a, p)
+		if sig != "" {
+			e.Fail(desc, sig, detail, files)
+			return
+		}
+		e.Pass(desc, true, "config:"+apiName)
+	}
+
+	// reading-order detector
+	for _, d := range dirs {
+		for _, pref := range bools {
+			for _, inv := range tri {
+				cfg := layout.DefaultReadingOrderConfig()
+				cfg.Direction, cfg.PreferColumnOrder, cfg.InvertedY = d.d, pref, inv.v
+				name := fmt.Sprintf("dir=%s,prefercolumn=%v,invertedY=%s", d.name, pref, inv.name)
+				for _, q := range pages {
+					run("Config.ReadingOrder.Fragments", "column", "", name, q, func(fr []text.TextFragment) view {
+						r := layout.NewReadingOrderDetectorWithConfig(cfg).Detect(fr, pageW, pageH)
+						v := view{hasG: true, groups: [][]text.TextFragment{r.Fragments}, facets: []string{"Fragments", "Sections[].Fragments"}}
+						var sg [][]text.TextFragment
+						for _, s := range r.Sections {
+							sg = append(sg, s.Fragments)
+						}
+						v.moreGroups = [][][]text.TextFragment{sg}
+						return v
+					})
+					run("Config.ReadingOrder.Lines", "column+line", "", name, q, func(fr []text.TextFragment) view {
+						r := layout.NewReadingOrderDetectorWithConfig(cfg).Detect(fr, pageW, pageH)
+						v := view{hasG: true, groups: lineGroups(r.Lines), hasS: true, strs: lineTexts(r.Lines),
+							facets: []string{"Lines[].Fragments", "Sections[].Lines[].Fragments", "Lines[].Text", "Sections[].Lines[].Text", "GetText"}}
+						var sg [][]text.TextFragment
+						var st []string
+						for _, s := range r.Sections {
+							sg = append(sg, lineGroups(s.Lines)...)
+							st = append(st, lineTexts(s.Lines)...)
+						}
+						v.moreGroups, v.moreStrs = [][][]text.TextFragment{sg}, [][]string{st, {r.GetText()}}
+						return v
+					})
+					run("Config.ReadingOrder.GetParagraphs", "column+line", "", name, q, func(fr []text.TextFragment) view {
+						pl := layout.NewReadingOrderDetectorWithConfig(cfg).Detect(fr, pageW, pageH).GetParagraphs()
+						v := paraView(pl.Paragraphs)
+						v.moreStrs = append(v.moreStrs, []string{pl.GetText()})
+						v.facets = append(v.facets, "ParagraphLayout.GetText")
+						return v
+					})
+				}
+			}
+		}
+	}
+	// block detector
+	for _, merge := range bools {
+		cfg := layout.DefaultBlockConfig()
+		cfg.MergeOverlappingBlocks = merge
+		for _, q := range pages {
+			run("Config.Block.Detect", "block", "", fmt.Sprintf("merge=%v", merge), q, func(fr []text.TextFragment) view {
+				l := layout.NewBlockDetectorWithConfig(cfg).Detect(fr, pageW, pageH)
+				v := blockView(l.Blocks)
+				v.moreGroups = append(v.moreGroups, [][]text.TextFragment{l.GetAllFragments()})
+				v.moreStrs = append(v.moreStrs, []string{l.GetText()})
+				v.facets = []string{"Block.Fragments", "Block.Lines", "BlockLayout.GetAllFragments", "Block.GetText", "BlockLayout.GetText"}
+				return v
+			})
+		}
+	}
+	// analyzer
+	for _, dh := range bools {
+		for _, dl := range bools {
+			for _, uro := range bools {
+				for _, inv := range tri {
+					for _, d := range dirs[:2] {
+						for _, merge := range bools {
+							for hb := 0; hb < 4; hb++ {
+								cfg := layout.DefaultAnalyzerConfig()
+								cfg.DetectHeadings, cfg.DetectLists, cfg.UseReadingOrder = dh, dl, uro
+								cfg.ReadingOrderConfig.InvertedY, cfg.ReadingOrderConfig.Direction = inv.v, d.d
+								cfg.BlockConfig.MergeOverlappingBlocks = merge
+								cfg.HeadingConfig.BoldIndicatesHeading, cfg.HeadingConfig.AllCapsIndicatesHeading = hb&1 == 0, hb&2 == 0
+								name := fmt.Sprintf("headings=%v,lists=%v,readingorder=%v,invertedY=%s,dir=%s,merge=%v,bold=%v,allcaps=%v", dh, dl, uro, inv.name, d.name, merge, hb&1 == 0, hb&2 == 0)
+								for _, q := range pages {
+									analyze := func(fr []text.TextFragment) (*layout.AnalysisResult, []layout.Paragraph) {
+										r := layout.NewAnalyzerWithConfig(cfg).Analyze(fr, pageW, pageH)
+										var ps []layout.Paragraph
+										if r.Paragraphs != nil {
+											ps = r.Paragraphs.Paragraphs
+										}
+										return r, ps
+									}
+									run("Config.Analyzer.Elements", "elements", "loss", name, q, func(fr []text.TextFragment) view {
+										r, ps := analyze(fr)
+										return elemView(r.Elements, ps, false)
+									})
+									run("Config.Analyzer.Elements.dup", "elements", "dup", name, q, func(fr []text.TextFragment) view {
+										r, ps := analyze(fr)
+										return elemView(r.Elements, ps, false)
+									})
+									run("Config.Analyzer.ElementDetails", "elements", "loss", name, q, func(fr []text.TextFragment) view {
+										r, ps := analyze(fr)
+										return elemView(r.Elements, ps, true)
+									})
+									run("Config.Analyzer.Structures", "column+line", "", name, q, func(fr []text.TextFragment) view {
+										r, _ := analyze(fr)
+										v := view{hasG: true, groups: lineGroups(r.Lines.Lines), hasS: true, strs: []string{r.GetText()},
+											facets: []string{"Lines", "Blocks", "Paragraphs[].Lines", "ReadingOrder.Lines", "GetText", "Paragraphs.GetText", "ReadingOrder.GetText"}}
+										var bg, pgp, rl [][]text.TextFragment
+										for i := range r.Blocks.Blocks {
+											bg = append(bg, r.Blocks.Blocks[i].Fragments)
+										}
+										for _, p := range r.Paragraphs.Paragraphs {
+											pgp = append(pgp, lineGroups(p.Lines)...)
+										}
+										v.moreGroups = [][][]text.TextFragment{bg, pgp}
+										v.moreStrs = [][]string{{r.Paragraphs.GetText()}}
+										if r.ReadingOrder != nil {
+											rl = lineGroups(r.ReadingOrder.Lines)
+											v.moreGroups = append(v.moreGroups, rl)
+											v.moreStrs = append(v.moreStrs, []string{r.ReadingOrder.GetText()})
+										} else {
+											v.facets = []string{"Lines", "Blocks", "Paragraphs[].Lines", "GetText", "Paragraphs.GetText"}
+										}
+										return v
+									})
+								}
+							}
+						}
+					}
 				}
 			}
 		}
